@@ -129,6 +129,34 @@ def s2(ck: Check) -> None:
     ok = isinstance(piv, ast.Name) and piv.id == cand
     ck.ob("S2", fm, f.stmt_of(test), ok, "reachability test starts from the current candidate" if ok else
           f"the reachability test is started from `{text(piv) if piv is not None else '?'}`, not from the current candidate", key="pivot")
+    # the child motifs that go into the avoid set are those of every successor, collected whenever the node is expanded
+    # (skip nodes and seeds-only calls included): a candidate that can reach a child space is transient, and with an empty
+    # list the node also counts as (pseudo-)minimal for the unchecked shortcut
+    it0 = loop.iter
+    lst0 = text(it0.args[0]) if isinstance(it0, ast.Call) and callee_name(it0) == "enumerate" and it0.args else text(it0)
+    enc0 = [c.args[1] for c in own_walk(f.node) if isinstance(c, ast.Call) and callee_name(c) == "state_list_to_bdd" and len(c.args) == 2]
+    childs0 = [x for x in enc0 if isinstance(x, ast.Name) and x.id != lst0]
+    node_p0 = f.params()[1]
+    sd_p0 = f.params()[0]
+    for ch in childs0[:1]:
+        probs0 = []
+        fills = [d for d in fm.cfg.nodes if d.kind == "stmt" and isinstance(d.ast, (ast.Assign, ast.AnnAssign))
+                 and text(d.ast.targets[0] if isinstance(d.ast, ast.Assign) else d.ast.target) == ch.id
+                 and d.ast.value is not None and not is_empty_list(d.ast.value)]
+        exp0 = logic.B(f"T:FIELD<{sd_p0}|{node_p0}|expanded>")
+        for d in fills:
+            pc0 = fm.pc(d)
+            try:
+                ok0 = exp0[1] in logic.atoms(pc0) and logic.equivalent(pc0, exp0)
+            except logic.TooBig:
+                ok0 = False
+            if not ok0:
+                probs0.append(f"line {d.lineno}: the child motifs are collected under `{logic.show(pc0)[:80]}`, not exactly when the node "
+                              f"is expanded: where they are left out, a candidate that reaches a successor's space is not refuted and "
+                              f"the node counts as minimal for the unchecked shortcut (a transient state is reported as a seed)")
+        if fills:
+            ck.ob("S2", fm, fills[0].ast, not probs0, "; ".join(probs0) if probs0 else
+                  "child motifs collected whenever the node is expanded", key="child motifs collected")
     clo0 = f.stmt_of(test).targets[0].id if isinstance(f.stmt_of(test), ast.Assign) and isinstance(f.stmt_of(test).targets[0], ast.Name) else None
     algebra = _avoid_algebra(fm, loop, test, cand, clo0)
     by_algebra = algebra == []
